@@ -83,6 +83,14 @@ TECH_SUFFIX["C07"] = TECH_SUFFIX.get("C07", "") + "; a panic that only the run w
 TECH_SUFFIX["C14"] += "; BUSY-wait faults on both chip families; interrupt outcome 'preamble and timeout latched together'; a call that keeps waiting after the chip reported a timeout is a violation"
 TECH_SUFFIX["C18"] = TECH_SUFFIX.get("C18", "") + "; five modulations (incl. SF12/125 kHz with LDRO on the SX1272 register layout); SPI faults that are delivered to the chip and then reported as failed"
 
+# build round 4 (DESIGN section 17)
+TECH_SUFFIX["C04"] += "; the application abandons join() / send() (the future is dropped at a scripted wait: a radio call that has taken effect, a receive window, a timer; in full-stack runs while the real lora-phy driver waits for TxDone or sits in a receive window), after which every later call must return and the transmit probe must succeed"
+TECH_SUFFIX["C09"] += "; abandoned join() / send() futures (also inside long unanswered join-channel walks): every later frame is judged as usual; the level the network last commanded is followed independently of the device's own record"
+TECH_SUFFIX["C10"] += "; abandoned join() / send() futures: the windows of every later uplink are judged as usual"
+TECH_SUFFIX["C11"] = TECH_SUFFIX.get("C11", "") + "; JoinAccepts heard between the windows of a Class C join attempt (a device that becomes joined upon one must hold the session it defines)"
+TECH_SUFFIX["C14"] += "; a transport fault that hits while the driver reads the outcome of an operation the chip has already ended (RxDone / timeout / CadDone / TxDone) must not leave the driver believing the operation is armed"
+TECH_SUFFIX["C20"] += "; stored documents in which a struct is given as the sequence of its field values"
+
 
 def main():
     props = [json.loads(l)["id"] for l in open("/verif/properties.jsonl")]
